@@ -154,6 +154,58 @@ InitErrs(t, c) ==
                                 \cup (IF t.fr = "err" THEN {[id |-> t.id, e |-> XformErr(t.id)]} ELSE {})
     [] OTHER                 -> InitErrs(t.a, c)
 
+(* reference TIMING of a factory: "the first init error".  Time = index of the root poll of the init     *)
+(* future (1, 2, ..); a scripted future first polled in round s with k pending polls completes in round *)
+(* s + k.  and_then drives both inner factory futures together, so the error of the EARLIER round wins   *)
+(* (same-round ties: either, both are kept); transform / apply_cfg_factory continue in the round in      *)
+(* which their inner factory completed.                                                                 *)
+RECURSIVE ReadyAt(_, _)      \* answer of the j-th (0-based) poll_ready of a fresh service, all earlier ones Pending
+ReadyAt(t, j) ==
+  CASE t.o = "leaf" -> (IF t.kind = "fn" THEN ReadyOk
+                        ELSE IF j < t.rk THEN Pending
+                        ELSE IF t.rr = "ok" THEN ReadyOk ELSE Res("err", ReadyErr(t.id)))
+    [] t.o = "and_then" -> LET ra == ReadyAt(t.a, j) IN
+                             IF ra.k = "err" THEN ra
+                             ELSE LET rb == ReadyAt(t.b, j) IN
+                                    (IF rb.k = "err" THEN rb
+                                     ELSE IF ra.k = "pending" \/ rb.k = "pending" THEN Pending ELSE ReadyOk)
+    [] t.o = "map_err" -> LET r == ReadyAt(t.a, j) IN (IF r.k = "err" THEN Res("err", MapG(t.id, r.v)) ELSE r)
+    [] OTHER -> ReadyAt(t.a, j)
+MaxRk(t) == LET S == {x.rk : x \in Leaves(t)} \cup {0} IN CHOOSE m \in S : \A x \in S : x <= m
+ReadyFirst(t) == CHOOSE j \in 0..MaxRk(t) : ReadyAt(t, j).k # "pending" /\ \A i \in 0..(j - 1) : ReadyAt(t, i).k = "pending"
+
+IRef(at, k, errs) == [at |-> at, k |-> k, errs |-> errs]
+RECURSIVE InitRef(_, _, _)
+InitRef(t, c, s) ==
+  CASE t.o = "fleaf" -> (IF t.fr = "ok" THEN IRef(s + t.fk, "ok", {}) ELSE IRef(s + t.fk, "err", {InitErr(t.id, LeafCfg(t, c))}))
+    [] t.o = "fand_then" ->
+         LET ra == InitRef(t.a, c, s)
+             rb == InitRef(t.b, c, s) IN
+           IF ra.k = "ok" /\ rb.k = "ok" THEN IRef((IF ra.at > rb.at THEN ra.at ELSE rb.at), "ok", {})
+           ELSE IF rb.k = "ok" THEN ra
+           ELSE IF ra.k = "ok" THEN rb
+           ELSE IF ra.at < rb.at THEN ra
+           ELSE IF rb.at < ra.at THEN rb
+           ELSE IRef(ra.at, "err", ra.errs \cup rb.errs)
+    [] t.o = "fmap_init_err" -> LET r == InitRef(t.a, c, s) IN IRef(r.at, r.k, {MapH(t.id, e) : e \in r.errs})
+    [] t.o = "fmap_config"   -> InitRef(t.a, MapC(t.id, c), s)
+    [] t.o = "funit_config"  -> InitRef(t.a, "()", s)
+    [] t.o = "fapply_cfg"    -> (IF t.fr = "ok" THEN IRef(s + t.fk, "ok", {}) ELSE IRef(s + t.fk, "err", {CfgFnErr(t.id, c)}))
+    [] t.o = "ftransform"    ->
+         LET r == InitRef(t.a, c, s) IN
+           IF r.k = "err" THEN r
+           ELSE IF t.fr = "ok" THEN IRef(r.at + t.fk, "ok", {}) ELSE IRef(r.at + t.fk, "err", {XformErr(t.id)})
+    [] t.o = "fapply_cfg_factory" ->
+         LET r == InitRef(t.a, "()", s) IN
+           IF r.k = "err" THEN r
+           ELSE LET S == Build(t.a, "()")
+                    j == ReadyFirst(S)
+                    rd == ReadyAt(S, j) IN
+                  IF rd.k = "err" THEN IRef(r.at + j, "err", {FromErr(rd.v)})
+                  ELSE IF t.fr = "ok" THEN IRef(r.at + j + t.fk, "ok", {})
+                  ELSE IRef(r.at + j + t.fk, "err", {CfgFnErr(t.id, c)})
+    [] OTHER -> InitRef(t.a, c, s)
+
 IsFactory(t) == t.o \in {"fleaf", "fand_then", "fmap", "fmap_err", "fmap_init_err", "fmap_config",
                          "funit_config", "fapply_fn", "fboxed", "fapply_cfg", "fapply_cfg_factory", "ftransform"}
 
